@@ -555,9 +555,73 @@ pub fn many_call_programs() -> Vec<(String, Vec<Ln>)> {
     out
 }
 
+/// Deterministic pairs (program with macros, the same program expanded by hand) around the
+/// bookkeeping of an expansion: origins set by a body, definitions placed inside conditionals and
+/// closed with either spelling, literals that contain comment characters, the moment at which a
+/// conditional of the body is decided, calls made while another segment is selected.
+/// `both_fail` = the hand-expanded program is invalid (overlap), so the macro form must fail too.
+pub fn context_programs() -> Vec<(&'static str, String, String, bool)> {
+    let mut v: Vec<(&'static str, String, String, bool)> = vec![];
+    let mut add = |tag: &'static str, a: &str, b: &str, both_fail: bool| v.push((tag, a.to_string(), b.to_string(), both_fail));
+    let so = ".macro setorg\n.org @0\n.endm\n";
+    add("org:body-is-only-an-org", &format!("{}nop\nsetorg 0x10\nx: nop\n.dw x\n", so), "nop\n.org 0x10\nx: nop\n.dw x\n", false);
+    add("org:body-is-only-an-org:first-line-of-program", &format!("{}setorg 0x08\nx: nop\n.dw x\n", so), ".org 0x08\nx: nop\n.dw x\n", false);
+    add("org:body-is-only-an-org:twice", &format!("{}nop\nsetorg 0x10\nx: nop\nsetorg 0x20\ny: .dw x, y\n", so), "nop\n.org 0x10\nx: nop\n.org 0x20\ny: .dw x, y\n", false);
+    add("org:body-is-only-an-org:same-address-as-empty-block", &format!("{}.org 0x10\nsetorg 0x10\nx: nop\n.dw x\n", so), ".org 0x10\n.org 0x10\nx: nop\n.dw x\n", false);
+    add("org:body-is-only-an-org:in-data-segment-of-body", ".macro dorg\n.dseg\n.org @0\n.cseg\n.endm\nnop\ndorg 0x100\n.dseg\nv: .byte 2\n.cseg\n.dw v\n", "nop\n.dseg\n.org 0x100\n.cseg\n.dseg\nv: .byte 2\n.cseg\n.dw v\n", false);
+    let place = ".macro place\n.org @0\n.dw @1\n.endm\n";
+    add("org:body-starts-with-org", &format!("{}nop\nplace 0x20, 1\nplace 0x30, 2\nx: .dw x\n", place), "nop\n.org 0x20\n.dw 1\n.org 0x30\n.dw 2\nx: .dw x\n", false);
+    add("org:body-starts-with-org:first-line-of-program", &format!("{}place 0x20, 1\nx: .dw x\n", place), ".org 0x20\n.dw 1\nx: .dw x\n", false);
+    add("org:body-starts-with-org:at-start-of-empty-caller-block", &format!("{}.org 0x20\nplace 0x20, 1\nx: .dw x\n", place), ".org 0x20\n.org 0x20\n.dw 1\nx: .dw x\n", false);
+    add("org:body-ends-with-org", ".macro tail\nnop\n.org @0\n.endm\ntail 0x10\ny: nop\n.dw y\n", "nop\n.org 0x10\ny: nop\n.dw y\n", false);
+    add("org:item-org-item", ".macro gap\n.dw @0\n.org @1\n.dw @2\n.endm\nnop\ngap 1, 0x10, 2\nz: .dw z\ngap 3, 0x20, 4\n", "nop\n.dw 1\n.org 0x10\n.dw 2\nz: .dw z\n.dw 3\n.org 0x20\n.dw 4\n", false);
+    add("org:in-data-excursion", ".macro dv\n.dseg\n.org @0\nv@1: .byte 2\n.cseg\n.endm\nnop\ndv 0x100, 1\ndv 0x110, 2\n.dw v1, v2\n", "nop\n.dseg\n.org 0x100\nv1: .byte 2\n.cseg\n.dseg\n.org 0x110\nv2: .byte 2\n.cseg\n.dw v1, v2\n", false);
+    add("org:in-eeprom-excursion", ".macro ev\n.eseg\n.org @0\ne@1: .db @1\n.cseg\n.endm\nnop\nev 4, 1\nev 9, 2\n.dw e1, e2\n", "nop\n.eseg\n.org 4\ne1: .db 1\n.cseg\n.eseg\n.org 9\ne2: .db 2\n.cseg\n.dw e1, e2\n", false);
+    add("org:set-by-nested-call", &format!("{}.macro outer\nnop\nsetorg @0\n.dw @1\n.endm\nouter 0x10, 7\nw: .dw w\n", so), "nop\n.org 0x10\n.dw 7\nw: .dw w\n", false);
+    add("org:back-to-start-of-caller-block:only-org", &format!("{}.org 0x10\nnop\nsetorg 0x10\nnop\n", so), ".org 0x10\nnop\n.org 0x10\nnop\n", true);
+    add("org:back-to-start-of-caller-block:org-and-item", &format!("{}.org 0x20\nnop\nplace 0x20, 1\n", place), ".org 0x20\nnop\n.org 0x20\n.dw 1\n", true);
+    add("org:backward:only-org", &format!("{}nop\nnop\nnop\nsetorg 1\nnop\n", so), "nop\nnop\nnop\n.org 1\nnop\n", true);
+    // definitions inside conditionals, both end spellings
+    for (tag, end) in [("definition:in-conditional:endm", ".endm"), ("definition:in-conditional:endmacro", ".endmacro")] {
+        add(tag, &format!(".if 0\n.macro pick\nnop\n{e}\n.else\n.macro pick\nret\n{e}\n.endif\npick\n.dw 0x1234\n", e = end), "ret\n.dw 0x1234\n", false);
+        add(tag, &format!(".if 1\n.macro pick\nnop\n{e}\n.else\n.macro pick\nret\n{e}\n.endif\npick\n.dw 0x1234\n", e = end), "nop\n.dw 0x1234\n", false);
+        add(tag, &format!(".ifdef DBG\n.macro dbg\n.if @0\nnop\n.endif\n{e}\n.endif\nret\n.dw 0x4321\n", e = end), "ret\n.dw 0x4321\n", false);
+        add(tag, &format!(".define DBG\n.ifdef DBG\n.macro dbg\nnop\n{e}\n.else\n.macro dbg\n{e}\n.endif\ndbg\nret\n", e = end), "nop\nret\n", false);
+        add(tag, &format!(".ifndef DBG\n.macro dbg\n{e}\n.endif\ndbg\nret\n.dw 1\n", e = end), "ret\n.dw 1\n", false);
+    }
+    // comment characters inside literals of a body, comments that mention parameters
+    add("literal:semicolon-character", ".macro put\n.db ';', @0, \"x;y\", @1\n.endm\nput 1, 2\n", ".db ';', 1, \"x;y\", 2\n", false);
+    add("literal:semicolon-character", ".macro put\n.dq ';' * @0 + @1\n.endm\nput 2, 1+2\n", ".dq ';' * 2 + (1+2)\n", false);
+    add("literal:semicolon-character", ".macro put\n.dw @0, ';', @1\n.endm\nput 7, 8\n", ".dw 7, ';', 8\n", false);
+    add("literal:slashes-in-string", ".macro put\n.db \"a//b\", @0, '/', \"/*\", @1\n.endm\nput 1, 2\n", ".db \"a//b\", 1, '/', \"/*\", 2\n", false);
+    add("literal:quote-characters", ".macro put\n.db '\"', @0, \"it's\", @1\n.endm\nput 1, 2\n", ".db '\"', 1, \"it's\", 2\n", false);
+    add("comment:mentions-parameters", ".macro put\n.db @0 ; first of @0 and @1, never @7\n.db @1 // @5\n.db @0 /* @9 */\n.endm\nput 1, 2\n", ".db 1\n.db 2\n.db 1\n", false);
+    // when a conditional of the body is decided: at the call, like every other line of the body
+    add("timing:define-after-first-call", ".macro m\n.ifdef F\nnop\n.else\nret\n.endif\n.endm\nm\n.define F\nm\n", ".ifdef F\nnop\n.else\nret\n.endif\n.define F\n.ifdef F\nnop\n.else\nret\n.endif\n", false);
+    add("timing:define-after-first-call", ".macro m\n.ifndef F\n.dw 1\n.endif\n.dw 2\n.endm\nm\n.define F\nm\n", ".ifndef F\n.dw 1\n.endif\n.dw 2\n.define F\n.ifndef F\n.dw 1\n.endif\n.dw 2\n", false);
+    // calls made while the data or the EEPROM segment is selected
+    add("call-in-other-segment:data", ".macro var\n@0: .byte @1\n.endm\n.dseg\nvar buf, 4\nvar cnt, 1\n.cseg\n.dw buf, cnt\n", ".dseg\nbuf: .byte 4\ncnt: .byte 1\n.cseg\n.dw buf, cnt\n", false);
+    add("call-in-other-segment:eeprom", ".macro tab\n.db @0, @1\n.endm\nnop\n.eseg\ntab 1, 2\ntab 3, 4\n.cseg\nnop\n", "nop\n.eseg\n.db 1, 2\n.db 3, 4\n.cseg\nnop\n", false);
+    v
+}
+
 pub fn run(ctx: &Ctx) -> Result<Ev, String> {
     let opts = ModelOpts { devices: vec![] };
     let mut fixed = Ev::new("C09");
+    for (tag, a, b, both_fail) in context_programs() {
+        fixed.eval();
+        fixed.class(&format!("context-leg:{}", tag.split(':').next().unwrap_or(tag)));
+        fixed.nt(fp(&a));
+        // the hand-expanded side is the premise: it must behave as the leg says
+        let rb = crate::run::build(&b);
+        if rb.is_ok() == both_fail {
+            return Err(format!("C09 context leg {}: the hand-expanded program {} ({})", tag, if both_fail { "builds but is meant to be invalid" } else { "does not build" }, rb.brief()));
+        }
+        let chk = Check::Same { a: a.clone(), b: b.clone(), messages: true, allow_both_fail: both_fail };
+        if let Err(why) = chk.eval() {
+            fixed.violation(Violation { sig: format!("c09:context:{}", tag), what: format!("[{}] `{}`: {}", tag, a.replace('\n', " | "), why), replay: chk.to_json() });
+        }
+    }
     for (tag, prog) in many_call_programs() {
         fixed.eval();
         fixed.class("many-calls-leg");
@@ -597,5 +661,5 @@ pub fn run(ctx: &Ctx) -> Result<Ev, String> {
 }
 
 pub fn rule() -> String {
-    "proptest: 1–4 macro definitions (name in a generated letter case, 0–10 typed parameters), bodies of 1–6 templates: instructions with @n as register / pointer form / Y+q form / whole expression operand / atom inside a larger expression, .db/.dw/.dq over @n, .if @n … .else, calls of earlier macros passing @n and expressions over @n, .dseg/.eseg excursions (also as the last lines of the body), labels made unique with a numeric parameter; 1–6 calls (name in another letter case, before and after the definitions) with registers, all nine pointer forms, Y/Z+q, generated expression trees (parenthesised where embedded). Legs: call of an undefined macro, call lacking an argument the body uses (must fail). Oracle: tool(program with macros) == tool(hand-expanded program) == reference model. Non-trivial = a non-atomic expression argument, a body with a segment excursion, a nested call, definition/call names differing in case, or a must-fail leg; distinct = distinct program text".into()
+    "proptest: 1–4 macro definitions (name in a generated letter case, 0–10 typed parameters), bodies of 1–6 templates: instructions with @n as register / pointer form / Y+q form / whole expression operand / atom inside a larger expression, .db/.dw/.dq over @n, .if @n … .else, calls of earlier macros passing @n and expressions over @n, .dseg/.eseg excursions (also as the last lines of the body), labels made unique with a numeric parameter; 1–6 calls (name in another letter case, before and after the definitions) with registers, all nine pointer forms, Y/Z+q, generated expression trees (parenthesised where embedded). Deterministic context legs (macro form vs hand-expanded text): origins set by a body (.org only, leading, trailing, between items, in data/EEPROM excursions, through a nested call, back to the start of the caller's block), definitions inside taken/untaken conditionals closed with .endm or .endmacro, comment characters inside literals of a body, the moment a conditional of the body is decided, calls made in .dseg/.eseg. Legs: call of an undefined macro, call lacking an argument the body uses (must fail). Oracle: tool(program with macros) == tool(hand-expanded program) == reference model. Non-trivial = a non-atomic expression argument, a body with a segment excursion, a nested call, definition/call names differing in case, or a must-fail leg; distinct = distinct program text".into()
 }
